@@ -50,6 +50,8 @@ type C16Sc struct {
 	// resumes. No reply can race this stop, so exactly-once delivery is asserted.
 	QuiescentStop string
 	PauseAfter    int
+	// LoopLast: the lookup's run loop is scheduled last on every pass (see runLoopLast)
+	LoopLast bool
 }
 
 func genC16(t *rapid.T) C16Sc {
@@ -87,6 +89,7 @@ func genC16(t *rapid.T) C16Sc {
 		sc.QuiescentStop = pick(t, "qstop", "none", "none", "close", "stoptraversing")
 		sc.PauseAfter = uniformInt(t, 8, "pauseafter")
 	}
+	sc.LoopLast = uniformInt(t, 4, "looplast") == 0
 	return sc
 }
 
@@ -112,6 +115,10 @@ func runC16(sc C16Sc, c *kit.Case) *kit.Violation {
 	}
 	sv := newSrv(SrvOpts{NodeID: [20]byte{0xc1, 6}, Starting: seeds})
 	defer sv.Close()
+	if sc.LoopLast {
+		c.Label("run-loop-always-last")
+		defer runLoopLast(sv)()
+	}
 	net1 := newSimNet(sv)
 	ids := make([][20]byte, len(sc.Nodes))
 	answerID := make([][20]byte, len(sc.Nodes))
